@@ -262,6 +262,53 @@ def check(rep, F, tier, replay=None):
     cert_cred_rule(rep, F)
     from ruleutil import boot_attr_rule
     boot_attr_rule(rep, F)
+    # WIT-last: a stored script witness is not wiped by a later witness-less registration in the same call
+    from collections import deque as _dq
+    rep.rule("WIT-last", "in every TxInputsBuilder registration function, no call that (re-)registers an input with an empty witness (reaches insert_input_with_empty_witness without storing a witness) can execute after a call that stored the witness (reaches insert_input_with_witness): the empty registration comes first, the witness last - otherwise the script, its signers and its reference input vanish while the input stays a script input")
+    tib_fns = {fid_: fn_ for fid_, fn_ in F.fns.items() if "tx_inputs_builder::TxInputsBuilder::" in fid_ and "/tests/" not in fn_["file"] and "::{closure" not in fid_}
+
+    def reach_set(target_suffix):
+        out = {f_ for f_ in tib_fns if f_.endswith(target_suffix)}
+        changed = True
+        while changed:
+            changed = False
+            for f_ in tib_fns:
+                if f_ in out:
+                    continue
+                if any((c.to or "") in out for c in F.calls(f_)):
+                    out.add(f_)
+                    changed = True
+        return out
+    W_ = reach_set("::insert_input_with_witness")
+    E_ = reach_set("::insert_input_with_empty_witness")
+    if not W_ or not E_:
+        rep.lost("witness registration helpers of TxInputsBuilder not found")
+    n_wl = 0
+    for fid_, fn_ in sorted(tib_fns.items()):
+        cs_ = F.calls(fid_)
+        w_sites = [c for c in cs_ if (c.to or "") in W_]
+        e_only = [c for c in cs_ if (c.to or "") in E_ and (c.to or "") not in W_]
+        if not w_sites or not e_only:
+            continue
+        n_wl += 1
+        rep.inst("WIT-last")
+        succ_ = {i_: [x_ for x_ in mp._succs(fn_, i_) if x_ is not None and not fn_["bbs"][x_]["c"]] for i_ in range(len(fn_["bbs"])) if not fn_["bbs"][i_]["c"]}
+        for w_ in w_sites:
+            dq, seen_ = _dq(succ_.get(w_.bb, [])), set(succ_.get(w_.bb, []))
+            hit = None
+            while dq and hit is None:
+                x_ = dq.popleft()
+                for e_ in e_only:
+                    if e_.bb == x_:
+                        hit = e_
+                for y_ in succ_.get(x_, []):
+                    if y_ not in seen_:
+                        seen_.add(y_)
+                        dq.append(y_)
+            if hit is not None:
+                rep.violation("WIT-last", F.key(fid_), "%s stores a script witness (through %s) and can afterwards call %s, which registers the same input again with an empty witness: the native script that locks a UTxO carrying a reference script is missing from the witness set and its signers are not counted (predicted size 233, signed 435)" % (F.key(fid_), (w_.to or "").rsplit("::", 1)[-1], (hit.to or "").rsplit("::", 1)[-1]), {})
+                break
+    rep.floor("registration functions ordering empty and witnessed registration", 3, n_wl)
     return rep.finish(
         EXPLANATION,
         ["tables/c18_cert_signers.json transcribes the ledger's required-key rules", "fake witnesses have real sizes (fakes.rs)", "Ed25519KeyHashes de-duplicates (C16)"],
